@@ -28,6 +28,12 @@ type CodeWriter struct {
 	lastInt bool
 	// deferred is the mapping requested for the token about to be written
 	deferred deferredMapping
+	// stmtStart is true from the start of an expression statement until its first
+	// token is written
+	stmtStart bool
+	// stmtParen is true while the expression statement being written is enclosed
+	// in a parenthesis that openStatement had to open
+	stmtParen bool
 }
 
 // emit appends text to the buffer and keeps the source mapper's generated
@@ -48,6 +54,7 @@ func (cw *CodeWriter) write(s string, isToken bool) {
 		return
 	}
 	if isToken {
+		cw.openStatement(s == "{" || s == "function")
 		cw.restoreSemi(s[0])
 	}
 	cw.separateSigns(s[0])
@@ -91,6 +98,48 @@ func (cw *CodeWriter) restoreSemi(next byte) {
 	}
 }
 
+// beginStatement marks the start of an expression statement and returns the
+// state of the statement around it (a function expression has statements inside).
+func (cw *CodeWriter) beginStatement() bool {
+	outer := cw.stmtParen
+	cw.stmtStart = true
+	cw.stmtParen = false
+	return outer
+}
+
+// openStatement is called with the first token of whatever is written next. A
+// statement that begins with `{` is a block and one that begins with `function`
+// is a declaration, so an expression statement whose first token is one of these
+// (hazard) is enclosed in parentheses; endStatement closes them.
+func (cw *CodeWriter) openStatement(hazard bool) {
+	if !cw.stmtStart {
+		return
+	}
+	cw.stmtStart = false
+	if !hazard {
+		return
+	}
+	cw.restoreSemi('(')
+	cw.Builder.WriteByte('(')
+	cw.prevByte = cw.lastByte
+	cw.lastByte = '('
+	cw.lastInt = false
+	cw.stmtParen = true
+	if cw.Mapper != nil {
+		cw.Mapper.AdvanceColumn(1)
+	}
+}
+
+// endStatement closes the parenthesis openStatement opened for this statement
+// and returns to the state of the statement around it.
+func (cw *CodeWriter) endStatement(outer bool) {
+	if cw.stmtParen {
+		cw.WriteRune(')')
+	}
+	cw.stmtStart = false
+	cw.stmtParen = outer
+}
+
 // isDigits reports whether s consists of decimal digits only.
 func isDigits(s string) bool {
 	for i := 0; i < len(s); i++ {
@@ -131,6 +180,7 @@ func (cw *CodeWriter) WriteString(s string) {
 // WriteRune writes a rune to the buffer
 func (cw *CodeWriter) WriteRune(r rune) {
 	cw.flushPending()
+	cw.openStatement(r == '{')
 	cw.restoreSemi(byte(r))
 	cw.separateSigns(byte(r))
 	cw.commitMapping()
